@@ -51,7 +51,7 @@ META = {
  'C15': ('generated nesting constructs x depth x recursion limit executed in plain-Python child processes, outcome classification (Hypothesis)', '6 C15',
          'Cases drawn by Hypothesis, executed in a child interpreter whose recursion limit is lowered after import: outcome must be ok (round-trip and tree invariants by an iterative walk) or SQLParseError, a later ordinary call must work, the child must survive.',
          'limits 100/150/300 in quick, 500/1000 added in thorough with depth capped at 1200'),
- 'C16': ('enumerated and drawn pump strings per lexer rule under a CPU-time budget', '6 C16',
+ 'C16': ('enumerated pump strings per lexer rule (per loop: reaching prefix + pumps over minterm representatives of the rule; per rule: alphabet strings) and Hypothesis-drawn pumps, each tokenized under a CPU-time budget', '6 C16',
          'Search for super-polynomial tokenizing time: per rule of the current table, pumps over the rule alphabet (extracted with re._parser) at lengths ~60 and ~2000, plus drawn pumps; CPU time per candidate must stay under 2 s (observed worst ~0.05 s). Cannot prove the universal clause; decides the stated concrete shapes.',
          'CPU time via ITIMER_VIRTUAL (load-independent); no static ambiguity analysis (outside the technique family)'),
  'C17': ('generator ground truth for statement extents over a procedural grammar (Hypothesis)', '6 C17',
@@ -63,7 +63,7 @@ META = {
  'C19': ('differential across input forms and across API vs. in-process CLI (Hypothesis)', '6 C19',
          'Same text as str / bytes+encoding / UTF-8 bytes / Latin-1 bytes / stream through parse, parsestream, split, format must give the results of the str form; sqlparse.cli.main(argv) with drawn flags, encodings and channels must output format(text-mode decoding, **options).',
          'bool-typed CLI flags only with truthy value; identifier_case not combined with legacy code pages (re-casing may leave the code page)'),
- 'C20': ('memo-table oracle under model-based operation histories, harness-owned thread schedules and free-running stress (Hypothesis)', '6 C20',
+ 'C20': ('memo-table oracle (fresh-interpreter results of 40 probes) and repeat-at-end oracle under model-based operation histories, harness-owned thread schedules and free-running stress (Hypothesis)', '6 C20',
          'Probe results computed in a fresh interpreter must be reproduced after every step of drawn operation histories (raising calls, abandoned generators, reconfigure/re-initialise), by every thread under drawn line-level schedules of the first use of the default lexer, and under 16 free-running threads.',
          'schedules are line-granular inside lexer.py only; no liveness claim; reconfigured mode checks totality only'),
  'C09': ('differential vs. textbook hierarchical stack matcher over generated token arrangements (Hypothesis)', '6 C09',
